@@ -6,9 +6,10 @@
    Proofs/HdCodecP.v (codec, blinding).  HMAC-SHA512 and HASH160 are universally quantified
    functions.  The group facts about the curve are the explicit hypothesis [scalar_laws C]
    (Proofs/GroupHyp.v): never an axiom; it is discharged for the toy curve in the Examples. *)
-From V Require Import Base.Prelude Base.Ints Model.Pecc Model.Base58 Model.Hd Model.HdStr Generated.HdVersions
-  Proofs.GroupHyp Proofs.PeccEnc Proofs.HdP Proofs.HdPathP Proofs.HdCodecP Proofs.HdStrP Proofs.CurveSweep
-  Proofs.ToyCurve.
+From V Require Import Base.Prelude Base.Ints Model.Pecc Model.Base58 Model.Hd Model.HdStr Model.HdText Model.HdMemo
+  Generated.HdVersions
+  Proofs.GroupHyp Proofs.PeccEnc Proofs.HdP Proofs.HdPathP Proofs.HdCodecP Proofs.HdStrP Proofs.HdTextP
+  Proofs.HdSpecP Proofs.HdBlindP Proofs.HdNormP Proofs.CurveSweep Proofs.ToyCurve.
 From V Require Spec.Bip32.
 
 (* ------------------------------------------------------------------------------------------
@@ -543,6 +544,334 @@ Proof. vm_compute. reflexivity. Qed.
 
 
 (* ------------------------------------------------------------------------------------------
+   (3, text level, all spellings) Canonical path text.  [path_text m mark idxs] (Model/HdText.v)
+   is the text "m/<i1>/<i2>..." of an index list with the letter m or M ([mP]) and the hardening
+   mark ', h or H ([markP]) after the number i - 2^31 of every index i >= 2^31; numbers are
+   printed by [dec] = str().  [idx_ok i] is 0 <= i < 2^32.  These theorems cover every path the
+   property quantifies over (any depth, both notations, either letter case), including the
+   boundary indexes 2^31-1, 2^31 and 2^32-1. *)
+Theorem C08_int_of_str : forall n, - 2 ^ 4300 < n < 2 ^ 4300 -> py_int (dec n) = Ok n.
+Proof. exact py_int_dec. Qed.
+Print Assumptions C08_int_of_str.
+
+(* CPython's limit on int(): more than 4300 digit characters (leading zeros included) raise; a
+   path component like that is refused by is_valid_bip32_path and by both traverse methods *)
+Theorem C08_int_digit_limit :
+  (forall s, 4300 < zlen (filter is_digit s) -> py_int s = Err) /\
+  (forall c, 4300 < zlen (filter is_digit c) ->
+     valid_sub c = false /\ comp_index_priv c = Err /\ comp_index_pub c = Err).
+Proof. split; [exact py_int_digit_limit | exact component_digit_limit]. Qed.
+Print Assumptions C08_int_digit_limit.
+
+Theorem C08_path_text_reads_priv :
+  forall m mark l, mP m -> markP mark -> Forall idx_ok l ->
+  path_indexes_priv (path_text m mark l) = Ok l.
+Proof. exact path_text_priv. Qed.
+Print Assumptions C08_path_text_reads_priv.
+
+Theorem C08_path_text_reads_pub :
+  forall m mark l, mP m -> markP mark -> Forall idx_ok l ->
+  path_indexes_pub (path_text m mark l) =
+  if forallb (fun i => i <? 2147483648) l then Ok l else Err.
+Proof. exact path_text_pub. Qed.
+Print Assumptions C08_path_text_reads_pub.
+
+(* is_valid_bip32_path accepts it iff it has at most 255 components; the forgiving normalisation
+   maps every spelling to the lower-case h spelling; the text is tidy (so C08_parse_combine,
+   C08_traverse_combined and C08_blind_xpub_correct apply to it); it has one "/" per index *)
+Theorem C08_path_text_valid :
+  forall m mark l, mP m -> markP mark -> Forall idx_ok l ->
+  is_valid_path (path_text m mark l) = negb (256 <=? zlen l) /\
+  norm_valid (path_text m mark l) = path_text 109 104 l /\
+  tidy (path_text m mark l) = true /\
+  count_c 47 (path_text m mark l) = zlen l.
+Proof.
+  intros m mark l Hm Hk HF. repeat split.
+  - now apply path_text_valid.
+  - now apply path_text_norm.
+  - now apply path_text_tidy.
+  - now apply path_text_count.
+Qed.
+Print Assumptions C08_path_text_valid.
+
+Theorem C08_path_text_combine :
+  forall m1 k1 a m2 k2 b,
+  mP m1 -> markP k1 -> mP m2 -> markP k2 -> Forall idx_ok a -> Forall idx_ok b ->
+  zlen a <= 255 -> zlen b <= 255 ->
+  combine_paths (path_text m1 k1 a) (path_text m2 k2 b) = Ok (path_text 109 104 (a ++ b)).
+Proof. exact path_text_combine. Qed.
+Print Assumptions C08_path_text_combine.
+
+(* "deriving along a path equals deriving its components one by one", at the level of the
+   strings a user passes to traverse(), private and public, in every spelling *)
+Theorem C08_traverse_text_priv :
+  forall C hmac512 hash160 k m mark l, mP m -> markP mark -> Forall idx_ok l ->
+  traverse_priv C hmac512 hash160 k (path_text m mark l) = derive_priv C hmac512 hash160 k l.
+Proof. exact traverse_priv_text. Qed.
+Print Assumptions C08_traverse_text_priv.
+
+Theorem C08_traverse_text_pub :
+  forall C hmac512 hash160 k m mark l, mP m -> markP mark -> Forall idx_ok l ->
+  traverse_pub C hmac512 hash160 k (path_text m mark l) = derive_pub C hmac512 hash160 k l.
+Proof. exact traverse_pub_text. Qed.
+Print Assumptions C08_traverse_text_pub.
+
+(* blinding.secure_secret_path(depth), as a function of what randbelow(2**31 - 1) returned:
+   defined exactly for 1 <= depth < 32; the result is a valid, tidy path of [depth] unhardened
+   steps that both traverse methods read back as the draws *)
+Theorem C08_secure_secret_path :
+  (forall depth draws, 1 <= depth < 32 -> zlen draws = depth ->
+     secure_secret_path_of depth draws = Ok (join 47 ([109] :: map dec draws))) /\
+  (forall depth draws p,
+     Forall (fun r => 0 <= r < 2147483647) draws ->
+     secure_secret_path_of depth draws = Ok p ->
+     p = path_text 109 39 draws /\ zlen draws = depth /\ 1 <= depth < 32 /\
+     is_valid_path p = true /\ tidy p = true /\
+     path_indexes_pub p = Ok draws /\ path_indexes_priv p = Ok draws).
+Proof. split; [exact secure_secret_path_total | exact secure_secret_path_ok]. Qed.
+Print Assumptions C08_secure_secret_path.
+
+(* HDPrivateKey.get_private_key("<P>'", account, is_external, address): the f-string it builds
+   is the canonical text of m / P' / coin' / account' / chain / address *)
+Theorem C08_get_private_key_path :
+  forall P net account ext addr,
+  0 <= P < 2147483648 -> 0 <= account < 2147483648 -> 0 <= addr < 2147483648 ->
+  get_private_key_path (dec P ++ [39]) net account ext addr =
+  path_text 109 39 [P + hardened; (if net =? 0 then 0 else 1) + hardened; account + hardened;
+                    (if ext then 0 else 1); addr].
+Proof. exact get_private_key_path_reads. Qed.
+Print Assumptions C08_get_private_key_path.
+
+(* ------------------------------------------------------------------------------------------
+   (4, whole paths and serialization) The model against the key tree and the serialization
+   format of BIP32 (Spec/Bip32.v: master_node, child_node, descend, ser_node_priv/pub).
+   [node_of k] is the standard's view of a key object: ((k, c), depth, parent fingerprint,
+   child number). *)
+(* raw_serialize: exactly the standard's 78-byte layout, on exactly the domain depth in [0,255]
+   and child number in [0,2^32); outside it the code raises (int_to_byte / int_to_big_endian) *)
+Theorem C08_ser_priv_exact :
+  forall k ver, 0 <= sk k < pow256 32 ->
+  (0 <= sk_depth k <= 255 /\ 0 <= sk_num k < 4294967296 ->
+     ser_priv k ver = Ok (Bip32.ser_xprv ver (sk_depth k) (sk_pfp k) (sk_num k) (sk k, sk_cc k))) /\
+  (~ (0 <= sk_depth k <= 255 /\ 0 <= sk_num k < 4294967296) -> ser_priv k ver = Err).
+Proof. exact ser_priv_exact. Qed.
+Print Assumptions C08_ser_priv_exact.
+
+Theorem C08_ser_pub_exact :
+  forall (k : hdpub) ver,
+  (pk k <> None ->
+     (0 <= pk_depth k <= 255 /\ 0 <= pk_num k < 4294967296 ->
+        ser_pub k ver = Ok (Bip32.ser_xpub ver (pk_depth k) (pk_pfp k) (pk_num k) (pk k, pk_cc k))) /\
+     (~ (0 <= pk_depth k <= 255 /\ 0 <= pk_num k < 4294967296) -> ser_pub k ver = Err)) /\
+  (pk k = None -> ser_pub k ver = Err).
+Proof. intros k ver. split; [exact (ser_pub_exact k ver) | exact (ser_pub_infinity k ver)]. Qed.
+Print Assumptions C08_ser_pub_exact.
+
+(* depth is never checked by child()/traverse(): it grows by one per step, and from depth 256 on
+   neither xprv() nor xpub() can be printed (one byte) — e.g. the child of a depth-255 key *)
+Theorem C08_depth_overflow :
+  forall C hmac512 hash160,
+  (forall l k k', derive_priv C hmac512 hash160 k l = Ok k' -> sk_depth k' = sk_depth k + zlen l) /\
+  (forall l k k', derive_pub C hmac512 hash160 k l = Ok k' -> pk_depth k' = pk_depth k + zlen l) /\
+  (forall k l k' ver, derive_priv C hmac512 hash160 k l = Ok k' -> 255 < sk_depth k + zlen l ->
+     xprv_raw k' ver = Err /\ xpub_raw (pub_of k') ver = Err) /\
+  (forall k l k' ver, derive_pub C hmac512 hash160 k l = Ok k' -> 255 < pk_depth k + zlen l ->
+     xpub_raw k' ver = Err).
+Proof.
+  intros C hm h. split; [|split; [|split]].
+  - intros l k k' H. exact (proj1 (derive_depth C hm h l k k' H)).
+  - intros l k k' H. exact (proj1 (derive_pub_depth C hm h l k k' H)).
+  - exact (deep_key_unserialisable C hm h).
+  - exact (deep_pub_key_unserialisable C hm h).
+Qed.
+Print Assumptions C08_depth_overflow.
+
+(* derivation along a whole index path = the key tree of BIP32 (key, chain code, depth, parent
+   fingerprint, child number), whenever the standard calls every step valid *)
+Theorem C08_derive_priv_eq_bip32 :
+  forall C hmac512 hash160, scalar_laws C -> cn C < pow256 32 ->
+  forall l k nd, wf_priv C k -> Forall idx_ok l ->
+  Bip32.descend C hmac512 hash160 (node_of k) l = Some nd ->
+  exists k', derive_priv C hmac512 hash160 k l = Ok k' /\ node_of k' = nd /\ wf_priv C k'.
+Proof. exact derive_priv_eq_bip32. Qed.
+Print Assumptions C08_derive_priv_eq_bip32.
+
+(* the same for a tree walked from an extended PUBLIC key (no private key anywhere): point, chain
+   code, depth, parent fingerprint and child number of the node reached equal CKDpub iterated *)
+Theorem C08_derive_pub_eq_bip32 :
+  forall C hmac512 hash160, scalar_laws C ->
+  forall l (k : hdpub) nd,
+  valid C (pk k) -> pk k <> None -> Forall (fun i => 0 <= i) l ->
+  Bip32.descend_pub C hmac512 hash160 (pnode_of k) l = Some nd ->
+  exists k', derive_pub C hmac512 hash160 k l = Ok k' /\ pnode_of k' = nd /\
+             valid C (pk k') /\ pk k' <> None.
+Proof. exact derive_pub_eq_bip32. Qed.
+Print Assumptions C08_derive_pub_eq_bip32.
+
+(* HDPublicKey.raw_serialize() and its memo field _raw (Model/HdMemo.v): on an object whose
+   fields are not reassigned, every call of any history returns the unmemoised serialisation
+   (the default version bytes of the network).  The memo is never invalidated: see the Example
+   C08_toy_memo_stale below for what happens after an in-place edit. *)
+Theorem C08_raw_serialize_memo_sound :
+  forall k n, Forall (fun out => out = raw_serialize_pub k) (raw_serialize_history None (repeat k n)).
+Proof. exact raw_serialize_memo_sound. Qed.
+Print Assumptions C08_raw_serialize_memo_sound.
+
+(* the outermost calls composed: HDPrivateKey.from_seed(seed, network).traverse(text) followed by
+   .xprv() / .xpub() gives exactly Base58Check of the serialization the standard prescribes for
+   the node m/i1/.../in of that seed (default version bytes of the network), for every seed (no
+   length is checked by the code: the quantifier's 16..64 bytes is a subset), every path text of
+   at most 255 steps in any spelling — provided the standard derives the node (every step
+   valid). *)
+Theorem C08_seed_path_xkeys_eq_bip32 :
+  forall C hmac512 hash160 hash256, scalar_laws C -> cn C < pow256 32 ->
+  (forall key msg, bytes_ok (hmac512 key msg)) ->
+  forall seed net m mark l mnode nd v pv,
+  mP m -> markP mark -> Forall idx_ok l -> zlen l <= 255 ->
+  tbl_get tbl_xprv net = Ok v -> tbl_get tbl_xpub net = Ok pv ->
+  Bip32.master_node C hmac512 seed = Some mnode ->
+  Bip32.descend C hmac512 hash160 mnode l = Some nd ->
+  exists root k,
+    from_seed C hmac512 seed net None None = Ok root /\
+    traverse_priv C hmac512 hash160 root (path_text m mark l) = Ok k /\
+    node_of k = nd /\
+    xprv_raw k None = Ok (Bip32.ser_node_priv v nd) /\
+    xpub_raw (pub_of k) None = Ok (Bip32.ser_node_pub C pv nd) /\
+    xprv_str hash256 k None = encode_base58_checksum hash256 (Bip32.ser_node_priv v nd) /\
+    xpub_str hash256 (pub_of k) None = encode_base58_checksum hash256 (Bip32.ser_node_pub C pv nd).
+Proof.
+  intros C hm h h256 SL Hn Hb seed net m mark l mnode nd v pv Hm Hk HF Hl Hv Hpv Hma Hde.
+  destruct (seed_path_xkeys_eq_bip32 C hm h SL Hn Hb seed net m mark l mnode nd v pv
+              Hm Hk HF Hl Hv Hpv Hma Hde) as (root & k & A & B & D & E & F).
+  exists root, k. repeat (split; [assumption|]).
+  unfold xprv_str, xpub_str. rewrite E, F. split; reflexivity.
+Qed.
+Print Assumptions C08_seed_path_xkeys_eq_bip32.
+
+(* ------------------------------------------------------------------------------------------
+   (3 and 6 for ARBITRARY text) The forgiving normalisation of is_valid_bip32_path /
+   combine_bip32_paths (lower, strip, ' -> h, "//" -> "/") never changes what a text means to
+   the traverse methods: whatever HDPrivateKey.traverse / HDPublicKey.traverse reads out of a
+   text, it reads out of the normalised text too.  Hence the composition and blinding theorems
+   hold for every text the code accepts, with no tidiness side condition (they supersede
+   C08_parse_combine / C08_traverse_combined / C08_blind_xpub_correct, which are kept). *)
+Theorem C08_normalisation_preserves_meaning :
+  forall p l,
+  (path_indexes_priv p = Ok l -> path_indexes_priv (norm_valid p) = Ok l) /\
+  (path_indexes_pub p = Ok l -> path_indexes_pub (norm_valid p) = Ok l).
+Proof. intros p l. split; [apply indexes_norm_priv | apply indexes_norm_pub]. Qed.
+Print Assumptions C08_normalisation_preserves_meaning.
+
+Theorem C08_parse_combine_accepted :
+  forall a b x y, is_valid_path a = true -> is_valid_path b = true ->
+  (path_indexes_priv a = Ok x -> path_indexes_priv b = Ok y ->
+     exists z, combine_paths a b = Ok z /\ path_indexes_priv z = Ok (x ++ y)) /\
+  (path_indexes_pub a = Ok x -> path_indexes_pub b = Ok y ->
+     exists z, combine_paths a b = Ok z /\ path_indexes_pub z = Ok (x ++ y)).
+Proof.
+  intros a b x y Va Vb. split; intros Ha Hb.
+  - exact (parse_combine_accepted comp_index_priv a b x y (or_introl eq_refl) Va Vb Ha Hb).
+  - exact (parse_combine_accepted comp_index_pub a b x y (or_intror eq_refl) Va Vb Ha Hb).
+Qed.
+Print Assumptions C08_parse_combine_accepted.
+
+(* traverse(a) then traverse(b) = traverse(combine_bip32_paths(a, b)), both key types *)
+Theorem C08_traverse_combined_accepted :
+  forall C hmac512 hash160 a b, is_valid_path a = true -> is_valid_path b = true ->
+  (forall k k1 k2,
+     traverse_priv C hmac512 hash160 k a = Ok k1 -> traverse_priv C hmac512 hash160 k1 b = Ok k2 ->
+     exists z, combine_paths a b = Ok z /\ traverse_priv C hmac512 hash160 k z = Ok k2) /\
+  (forall k k1 k2,
+     traverse_pub C hmac512 hash160 k a = Ok k1 -> traverse_pub C hmac512 hash160 k1 b = Ok k2 ->
+     exists z, combine_paths a b = Ok z /\ traverse_pub C hmac512 hash160 k z = Ok k2).
+Proof.
+  intros C hm h a b Va Vb. split; intros k k1 k2 H1 H2.
+  - exact (traverse_combined_accepted C hm h k a b k1 k2 Va Vb H1 H2).
+  - exact (traverse_pub_combined_accepted C hm h k a b k1 k2 Va Vb H1 H2).
+Qed.
+Print Assumptions C08_traverse_combined_accepted.
+
+(* blinding, for any starting path and secret path TEXT: whenever blind_xpub returns, it returns
+   the combined path and exactly the xpub found there from the root *)
+Theorem C08_blind_xpub_correct_any_text :
+  forall C hmac512 hash160,
+  scalar_laws C -> ca C = 0 -> cp C mod 4 = 3 -> cp C < pow256 32 ->
+  forall root sp secret ks raw x full,
+  wf_priv C root ->
+  traverse_priv C hmac512 hash160 root sp = Ok ks ->
+  known_xpub (sk_pubver ks) = true -> length (sk_pfp ks) = 4%nat -> length (sk_cc ks) = 32%nat ->
+  xpub_raw (pub_of ks) None = Ok raw ->
+  blind_xpub C hmac512 hash160 raw sp secret = Ok (x, full) ->
+  combine_paths sp secret = Ok full /\
+  exists kf, traverse_priv C hmac512 hash160 root full = Ok kf /\ xpub_raw (pub_of kf) None = Ok x.
+Proof.
+  intros C hm h SL Ha H4 H256 root sp secret ks raw x full Hwf Hsp A B D.
+  apply (blind_xpub_correct_any C hm h (sec_roundtrip_of_laws C SL Ha H4 H256) SL root sp secret ks raw x full Hwf Hsp).
+  repeat split; try assumption.
+  rewrite traverse_priv_eq in Hsp. apply bind_ok in Hsp as (l & _ & Hd).
+  pose proof (derive_priv_wf C hm h l root ks Hwf Hd) as Hw.
+  destruct (wf_priv_inv C SL ks Hw) as (_ & _ & Hv & _). exact Hv.
+Qed.
+Print Assumptions C08_blind_xpub_correct_any_text.
+
+(* ------------------------------------------------------------------------------------------
+   (6, positive direction) blind_xpub on path texts in any spelling SUCCEEDS and returns exactly
+   the xpub found at the concatenated path from the root, with the text of that path; the empty
+   secret path "m" returns the starting xpub itself; the root path "m" is allowed; a hardened
+   step in the secret path is refused.  Curves y^2 = x^3 + b with p = 3 mod 4 (secp256k1, toy). *)
+Theorem C08_blind_xpub_text :
+  forall C hmac512 hash160,
+  scalar_laws C -> ca C = 0 -> cp C mod 4 = 3 -> cp C < pow256 32 ->
+  forall root a b ks kf raw x m1 k1 m2 k2,
+  wf_priv C root -> sk_depth root = 0 ->
+  Forall idx_ok a -> Forall (fun i => 0 <= i < 2147483648) b -> zlen a <= 255 -> zlen b <= 255 ->
+  derive_priv C hmac512 hash160 root a = Ok ks ->
+  derive_priv C hmac512 hash160 ks b = Ok kf ->
+  known_xpub (sk_pubver ks) = true -> length (sk_pfp ks) = 4%nat -> length (sk_cc ks) = 32%nat ->
+  xpub_raw (pub_of ks) None = Ok raw ->
+  xpub_raw (pub_of kf) None = Ok x ->
+  mP m1 -> markP k1 -> mP m2 -> markP k2 ->
+  blind_xpub C hmac512 hash160 raw (path_text m1 k1 a) (path_text m2 k2 b) =
+  Ok (x, path_text 109 104 (a ++ b)).
+Proof.
+  intros C hm h SL Ha H4 H256.
+  exact (blind_xpub_text C hm h (sec_roundtrip_of_laws C SL Ha H4 H256) SL).
+Qed.
+Print Assumptions C08_blind_xpub_text.
+
+Theorem C08_blind_xpub_degenerate :
+  forall C hmac512 hash160,
+  scalar_laws C -> ca C = 0 -> cp C mod 4 = 3 -> cp C < pow256 32 ->
+  (* empty secret path "m" / "M" *)
+  (forall root a ks raw m1 k1 m2,
+     wf_priv C root -> sk_depth root = 0 -> Forall idx_ok a -> zlen a <= 255 ->
+     derive_priv C hmac512 hash160 root a = Ok ks ->
+     known_xpub (sk_pubver ks) = true -> length (sk_pfp ks) = 4%nat -> length (sk_cc ks) = 32%nat ->
+     xpub_raw (pub_of ks) None = Ok raw -> mP m1 -> markP k1 -> mP m2 ->
+     blind_xpub C hmac512 hash160 raw (path_text m1 k1 a) [m2] = Ok (raw, path_text 109 104 a)) /\
+  (* root starting path "m" / "M" *)
+  (forall root b kf raw x m1 m2 k2,
+     wf_priv C root -> sk_depth root = 0 -> Forall (fun i => 0 <= i < 2147483648) b -> zlen b <= 255 ->
+     derive_priv C hmac512 hash160 root b = Ok kf ->
+     known_xpub (sk_pubver root) = true -> length (sk_pfp root) = 4%nat -> length (sk_cc root) = 32%nat ->
+     xpub_raw (pub_of root) None = Ok raw -> xpub_raw (pub_of kf) None = Ok x ->
+     mP m1 -> mP m2 -> markP k2 ->
+     blind_xpub C hmac512 hash160 raw [m1] (path_text m2 k2 b) = Ok (x, path_text 109 104 b)) /\
+  (* a hardened step in the secret path *)
+  (forall raw sp b m2 k2,
+     Forall idx_ok b -> Exists (fun i => 2147483648 <= i) b -> mP m2 -> markP k2 ->
+     blind_xpub C hmac512 hash160 raw sp (path_text m2 k2 b) = Err).
+Proof.
+  intros C hm h SL Ha H4 H256.
+  pose proof (sec_roundtrip_of_laws C SL Ha H4 H256) as RT.
+  split; [|split].
+  - exact (blind_xpub_empty_secret C hm h RT SL).
+  - exact (blind_xpub_root C hm h RT SL).
+  - exact (blind_xpub_refuses_hardened C hm h).
+Qed.
+Print Assumptions C08_blind_xpub_degenerate.
+
+(* ------------------------------------------------------------------------------------------
    Non-vacuity on the toy curve y^2 = x^3 + 7 over F_43 (group order 31), where
    [scalar_laws] is proved by exhaustive computation.  The "hash" returns IL = 3. *)
 Definition toy_hmac (key msg : bytes) : bytes := repeatz 0 31 ++ [3] ++ repeatz 7 32.
@@ -619,6 +948,145 @@ Proof.
   do 2 eexists. split; [vm_compute; reflexivity|].
   split; [intros x; reflexivity|]. split; [intros x; apply bytes_okb_ok; reflexivity|].
   repeat (split; [vm_compute; reflexivity|]). vm_compute. reflexivity.
+Qed.
+
+(* the hardened boundary on the toy curve, with a "hash" whose IL shows which data layout was
+   hashed (IL = 1 + first byte of the message: 1 for 0x00 || ser256(k), 3 or 4 for serP(K)):
+   2^31-1 is a normal child on both sides, 2^31 and 2^32-1 are hardened (private only), 2^32 and
+   -1 are refused; the three spellings of m/2147483647/0'/2147483647h read as the same indexes *)
+Definition toy_hmac_tag (key msg : bytes) : bytes :=
+  repeatz 0 31 ++ [1 + nth 0 msg 0] ++ repeatz 7 32.
+Example C08_toy_hardened_boundary :
+  exists k k1 k2 k3, toy_key 5 = Ok k /\
+    child_priv toy toy_hmac_tag toy_h160 k 2147483647 = Ok k1 /\ (sk k1 = 8 \/ sk k1 = 9) /\
+    child_pub toy toy_hmac_tag toy_h160 (pub_of k) 2147483647 = Ok (pub_of k1) /\
+    child_priv toy toy_hmac_tag toy_h160 k 2147483648 = Ok k2 /\ sk k2 = 6 /\
+    child_pub toy toy_hmac_tag toy_h160 (pub_of k) 2147483648 = Err /\
+    child_priv toy toy_hmac_tag toy_h160 k 4294967295 = Ok k3 /\ sk k3 = 6 /\ sk_num k3 = 4294967295 /\
+    child_pub toy toy_hmac_tag toy_h160 (pub_of k) 4294967295 = Err /\
+    child_priv toy toy_hmac_tag toy_h160 k 4294967296 = Err /\
+    child_priv toy toy_hmac_tag toy_h160 k (-1) = Err /\
+    child_pub toy toy_hmac_tag toy_h160 (pub_of k) (-1) = Err.
+Proof.
+  do 4 eexists. repeat (split; [vm_compute; reflexivity|]).
+  split; [vm_compute; auto|]. repeat (split; [vm_compute; reflexivity|]). vm_compute. reflexivity.
+Qed.
+
+Example C08_toy_path_text :
+  let l := [2147483647; 2147483648; 4294967295; 0] in
+  path_text 109 39 l = [109;47;50;49;52;55;52;56;51;54;52;55;47;48;39;47;50;49;52;55;52;56;51;54;52;55;39;47;48] /\
+  Forall idx_ok l /\ mP 77 /\ markP 72 /\
+  path_indexes_priv (path_text 77 72 l) = Ok l /\ path_indexes_priv (path_text 109 104 l) = Ok l /\
+  path_indexes_pub (path_text 109 39 l) = Err /\ path_indexes_pub (path_text 109 39 [2147483647; 0]) = Ok [2147483647; 0] /\
+  is_valid_path (path_text 77 72 l) = true /\
+  (* quirks next to the boundary: a plain number >= 2^31 is read by the private traverse as a
+     hardened index, 2^31 with a mark overflows to 2^32 and fails at child(), and neither text
+     is valid *)
+  path_indexes_priv [109;47;50;49;52;55;52;56;51;54;52;56] = Ok [2147483648] /\
+  is_valid_path [109;47;50;49;52;55;52;56;51;54;52;56] = false /\
+  path_indexes_priv [109;47;50;49;52;55;52;56;51;54;52;56;39] = Ok [4294967296] /\
+  is_valid_path [109;47;50;49;52;55;52;56;51;54;52;56;39] = false.
+Proof.
+  cbv zeta. split; [vm_compute; reflexivity|].
+  split; [repeat constructor; unfold idx_ok; lia|]. split; [right; reflexivity|].
+  split; [right; right; reflexivity|]. repeat (split; [vm_compute; reflexivity|]). vm_compute. reflexivity.
+Qed.
+
+(* depth 255 -> 256 on the toy curve: the child derives, its xprv/xpub cannot be printed *)
+Example C08_toy_depth_overflow :
+  exists k k', mk_priv toy 5 (repeatz 1 32) 255 [0;0;0;0] 0 0 None None = Ok k /\
+    (exists raw, xprv_raw k None = Ok raw /\ length raw = 78%nat) /\
+    child_priv toy toy_hmac toy_h160 k 0 = Ok k' /\ sk_depth k' = 256 /\
+    xprv_raw k' None = Err /\ xpub_raw (pub_of k') None = Err.
+Proof.
+  do 2 eexists. split; [vm_compute; reflexivity|].
+  split; [eexists; split; vm_compute; reflexivity|].
+  repeat (split; [vm_compute; reflexivity|]). vm_compute. reflexivity.
+Qed.
+
+(* the key tree of the standard on the toy curve: seed -> m/1/2h, hypotheses of
+   C08_seed_path_xkeys_eq_bip32 satisfied (toy_hmac gives IL = 3, so master = 3, m/1 = 6,
+   m/1/2h = 9) *)
+Example C08_toy_tree :
+  exists mnode nd,
+    Bip32.master_node toy toy_hmac [1;2;3] = Some mnode /\
+    Bip32.descend toy toy_hmac toy_h160 mnode [1; 2147483650] = Some nd /\
+    fst (Bip32.n_key nd) = 9 /\ Bip32.n_depth nd = 2 /\ Bip32.n_num nd = 2147483650 /\
+    length (Bip32.ser_node_priv [4;136;173;228] nd) = 78%nat /\
+    (forall key msg, bytes_ok (toy_hmac key msg)) /\
+    exists root k, from_seed toy toy_hmac [1;2;3] 0 None None = Ok root /\
+      traverse_priv toy toy_hmac toy_h160 root (path_text 77 72 [1; 2147483650]) = Ok k /\
+      xprv_raw k None = Ok (Bip32.ser_node_priv [4;136;173;228] nd).
+Proof.
+  do 2 eexists. repeat (split; [vm_compute; reflexivity|]).
+  split; [intros key msg; apply bytes_okb_ok; reflexivity|].
+  do 2 eexists. repeat (split; [vm_compute; reflexivity|]). vm_compute. reflexivity.
+Qed.
+
+(* blinding on canonical texts on the toy curve: "M/1H" (hardened start), secret "m/2/3" *)
+Example C08_toy_blind_text :
+  exists root ks kf raw x,
+    toy_key 5 = Ok root /\ wf_priv toy root /\ sk_depth root = 0 /\
+    derive_priv toy toy_hmac toy_h160 root [2147483649] = Ok ks /\
+    derive_priv toy toy_hmac toy_h160 ks [2; 3] = Ok kf /\
+    known_xpub (sk_pubver ks) = true /\ length (sk_pfp ks) = 4%nat /\ length (sk_cc ks) = 32%nat /\
+    xpub_raw (pub_of ks) None = Ok raw /\ xpub_raw (pub_of kf) None = Ok x /\
+    blind_xpub toy toy_hmac toy_h160 raw (path_text 77 72 [2147483649]) (path_text 109 39 [2; 3]) =
+      Ok (x, path_text 109 104 [2147483649; 2; 3]) /\
+    blind_xpub toy toy_hmac toy_h160 raw (path_text 77 72 [2147483649]) [109] =
+      Ok (raw, path_text 109 104 [2147483649]).
+Proof.
+  do 5 eexists. repeat (split; [vm_compute; reflexivity|]). vm_compute. reflexivity.
+Qed.
+
+(* the public tree on the toy curve: from the public half of secret 5, path 1/2 *)
+Example C08_toy_pub_tree :
+  exists k nd, toy_key 5 = Ok k /\ valid toy (pk (pub_of k)) /\ pk (pub_of k) <> None /\
+    Bip32.descend_pub toy toy_hmac toy_h160 (pnode_of (pub_of k)) [1; 2] = Some nd /\
+    Bip32.pn_depth nd = 2 /\ Bip32.pn_num nd = 2 /\
+    exists k', derive_pub toy toy_hmac toy_h160 (pub_of k) [1; 2] = Ok k' /\ pnode_of k' = nd.
+Proof.
+  do 2 eexists. split; [vm_compute; reflexivity|].
+  split; [apply validb_valid; vm_compute; reflexivity|]. split; [vm_compute; discriminate|].
+  repeat (split; [vm_compute; reflexivity|]). eexists. split; vm_compute; reflexivity.
+Qed.
+
+(* the memo after an in-place edit: raw_serialize(), then depth reassigned 1 -> 2, then
+   raw_serialize() again returns the OLD bytes (quirk of the code, reproduced by the model and
+   exercised by the harness op raw_serialize_history) *)
+Example C08_toy_memo_stale :
+  exists k1 k2 r1 r2, toy_key 5 = Ok k1 /\
+    k2 = {| pk := sk_pt k1; pk_cc := sk_cc k1; pk_depth := 2; pk_pfp := sk_pfp k1; pk_num := 0;
+            pk_net := 0; pk_ver := sk_pubver k1 |} /\
+    raw_serialize_pub (pub_of k1) = Ok r1 /\ raw_serialize_pub k2 = Ok r2 /\ r1 <> r2 /\
+    raw_serialize_history None [pub_of k1; k2; k2] = [Ok r1; Ok r1; Ok r1].
+Proof.
+  do 4 eexists. split; [vm_compute; reflexivity|]. split; [reflexivity|].
+  split; [vm_compute; reflexivity|]. split; [vm_compute; reflexivity|].
+  split; [vm_compute; discriminate | vm_compute; reflexivity].
+Qed.
+
+(* untidy but accepted texts: "M/1H/2 " (trailing blank) and "m/3" + TAB: valid, not tidy, both
+   traverse loops read them, and the combined path "m/1h/2/3" reads as the concatenation *)
+Example C08_toy_untidy :
+  let a := [77;47;49;72;47;50;32] in let b := [109;47;51;9] in
+  is_valid_path a = true /\ is_valid_path b = true /\ tidy a = false /\ tidy b = false /\
+  path_indexes_priv a = Ok [2147483649; 2] /\ path_indexes_priv b = Ok [3] /\ path_indexes_pub b = Ok [3] /\
+  combine_paths a b = Ok [109;47;49;104;47;50;47;51] /\
+  path_indexes_priv [109;47;49;104;47;50;47;51] = Ok [2147483649; 2; 3].
+Proof. vm_compute. repeat split. Qed.
+
+(* secure_secret_path with the draws 5, 0, 2^31-2 *)
+Example C08_toy_secure_secret_path :
+  secure_secret_path_of 3 [5; 0; 2147483646] = Ok [109;47;53;47;48;47;50;49;52;55;52;56;51;54;52;54] /\
+  secure_secret_path_of 32 (repeatz 1 32) = Err /\ secure_secret_path_of 0 [] = Err /\
+  4300 < zlen (filter is_digit (repeatz 48 4301)) /\ py_int (repeatz 48 4301) = Err /\
+  valid_sub (repeatz 48 4301 ++ [104]) = false.
+Proof.
+  do 3 (split; [vm_compute; reflexivity|]).
+  assert (H : 4300 < zlen (filter is_digit (repeatz 48 4301))) by (vm_compute; reflexivity).
+  split; [exact H|]. split; [exact (py_int_digit_limit _ H)|].
+  apply component_digit_limit. rewrite filter_app. cbn [filter is_digit]. rewrite app_nil_r. exact H.
 Qed.
 
 (* The constants written in the model are the constants of the SOURCE: coq/Generated/SrcConsts.v is regenerated
